@@ -31,6 +31,7 @@ ASSUMPTIONS = [
     "rounding=False (statutory rounding is C10)",
 ]
 BUDGET = {"quick": (32, 8), "thorough": (None, 50)}
+EARLY = 6  # additional strata from 2005-2014 in the quick tier (all of them in the thorough tier)
 GEN = dict(mode="branch", max_households=4)
 
 KIND = {float: "f", int: "iu", bool: "b"}
